@@ -12,6 +12,19 @@ def run(rep, tier, seed, replay_file=None):
         "a goroutine snapshot with no running/runnable goroutine is a fixed point (rt.Quiesce, DESIGN 3.3)",
         "exhaustive claims hold for the constants of the cfg files only",
     ]
+    # unbounded part (runs beside everything else): Apalache + TLAPS prove the safety invariants of WaitGroup.tla
+    # (counter >= 0, counter = sum of completed Adds, mutex exclusion, NoEarlyReturn) for any number of waiters
+    import threading
+    from props import proofs
+    pt = threading.Thread(target=proofs.run_proofs, args=(rep, ["waitgroup"], tier))
+    pt.start()
+    try:
+        _run(rep, tier, seed, quick)
+    finally:
+        pt.join()
+
+
+def _run(rep, tier, seed, quick):
     # 1. design level: every interleaving of the implementation-shaped spec
     cfgs = ["MC_small.cfg"] if quick else ["MC_small.cfg", "MC_full.cfg"]
     for cfg in cfgs:
